@@ -443,3 +443,23 @@ def run_driver(pid, fn, argv=None):
         import traceback
         traceback.print_exc()
         return chk.abort('%s: %s' % (type(e).__name__, e))
+
+
+def same_evaluation(a, b):
+    """Two evaluation results (or Raised) carry the same status, statistic, test distribution and quantile (nan = nan)."""
+    if isinstance(a, Raised) or isinstance(b, Raised):
+        return isinstance(a, Raised) and isinstance(b, Raised)
+    if a is None or b is None:
+        return a is None and b is None
+
+    def norm(x):
+        if x is None or isinstance(x, str):
+            return x
+        try:
+            it = list(x)
+        except TypeError:
+            x = float(x)
+            return 'nan' if x != x else x
+        return [norm(y) for y in it]
+    return all(norm(getattr(a, f, None)) == norm(getattr(b, f, None))
+               for f in ('status', 'observed_statistic', 'test_distribution', 'quantile'))
